@@ -12,11 +12,13 @@ from .script import ScriptRunner, hx
 
 
 class Node:
-    __slots__ = ('var', 'parent', 'name', 'probe', 'depth')
+    __slots__ = ('var', 'parent', 'name', 'probe', 'depth', 'symlen', 'kinds')
 
-    def __init__(self, var, parent, name, probe=False):
+    def __init__(self, var, parent, name, probe=False, symlen=None, kinds=('d', 'f')):
         self.var, self.parent, self.name, self.probe = var, parent, name, probe
         self.depth = 0
+        self.symlen = symlen          # not None: the name is a symbolic byte string of this length
+        self.kinds = kinds
 
 
 class Universe:
@@ -70,13 +72,19 @@ def U3():
     return Universe([Node('a', 'R', 'a'), Node('ab', 'R', 'ab'), Node('a_b', 'a', 'b'), Node('x', 'R', 'x', True)], 'U3')
 
 
+def USYM():
+    """symbolic-name mode: the solver, not a list, decides every prefix/suffix relation between names"""
+    return Universe([Node('n1', 'R', None, symlen=1), Node('n2', 'R', None, symlen=3), Node('n1_n3', 'n1', None, symlen=2),
+                     Node('x', 'R', 'x', True)], 'USYM')
+
+
 def U8():
     return Universe([Node('a', 'R', 'a'), Node('ab', 'R', 'ab'), Node('adb', 'R', 'a.b'), Node('a_b', 'a', 'b'),
                      Node('a_b_c', 'a_b', 'c'), Node('ab_c', 'ab', 'c'), Node('a_e', 'a', 'é'),
                      Node('a_b_c_d', 'a_b_c', 'd'), Node('x', 'R', 'x', True), Node('x_y', 'x', 'y', True)], 'U8')
 
 
-UNIVERSES = {'U5': U5, 'U4': U4, 'U3': U3, 'U8': U8}
+UNIVERSES = {'U5': U5, 'U4': U4, 'U3': U3, 'U8': U8, 'USYM': USYM}
 
 # a shape is a tuple of (var, kind) with kind in 'd' / 'f' for existing nodes, parents first
 
@@ -93,7 +101,7 @@ def shapes(u, max_files=None):
         n = real[i]
         rec(i + 1, cur)
         if n.parent == 'R' or cur.get(n.parent) == 'd':
-            for k in ('d', 'f'):
+            for k in n.kinds:
                 cur[n.var] = k
                 rec(i + 1, cur)
                 del cur[n.var]
@@ -274,6 +282,24 @@ def contract(t, op, v, data=None, dst=None, dst_tree=None):
 
 # ------------------------------------------------------------------------------------------ state construction
 
+NAME_ALPHA = [0x61, 0x62, 0x2e, 0x5f, 0xc3, 0xa9]
+
+
+def valid_name(s):
+    """a valid path component over the alphabet {a, b, '.', '_', U+00E9}: UTF-8 well-formed, not '.' or '..'"""
+    n = len(s)
+    cs = []
+    for i, b in enumerate(s):
+        cs.append(z3.Or([b == z3.BitVecVal(c, 8) for c in NAME_ALPHA]))
+        cs.append(z3.Implies(b == 0xc3, s[i + 1] == 0xa9) if i + 1 < n else b != 0xc3)
+        cs.append(z3.Implies(b == 0xa9, s[i - 1] == 0xc3) if i > 0 else b != 0xa9)
+    if n == 1:
+        cs.append(s[0] != 0x2e)
+    if n == 2:
+        cs.append(z3.Not(z3.And(s[0] == 0x2e, s[1] == 0x2e)))
+    return zand(cs)
+
+
 def sym_content(ex, n, tag):
     return S([ex.fresh(tag, 8) for _ in range(n)])
 
@@ -287,13 +313,27 @@ class Setup:
     def define_paths(self, root='R', prefix=''):
         """script vars for every universe node: <prefix><var> = root.join(name chain)"""
         sr = self.sr
+        ex = sr.ex
         for n in self.u.nodes:
             base = root if n.parent == 'R' else prefix + n.parent
-            r = sr.do('join %s%s %s %s' % (prefix, n.var, base, hx(n.name.encode())))
+            if n.symlen is not None:
+                key = 'nm_' + n.var
+                if key not in sr.syms:
+                    sr.syms[key] = S([ex.fresh(key, 8) for _ in range(n.symlen)])
+                    ex.assume(valid_name(sr.syms[key]))
+                    for o in self.u.nodes:
+                        ok_ = 'nm_' + o.var
+                        if o is not n and o.parent == n.parent and o.symlen == n.symlen and ok_ in sr.syms:
+                            ex.assume(znot(seq_eq(sr.syms[key], sr.syms[ok_])))
+                        if o is not n and o.parent == n.parent and o.symlen is None and len(o.name.encode()) == n.symlen:
+                            ex.assume(znot(seq_eq(sr.syms[key], S(o.name.encode()))))
+                r = sr.do('join %s%s %s $%s' % (prefix, n.var, base, key))
+            else:
+                r = sr.do('join %s%s %s %s' % (prefix, n.var, base, hx(n.name.encode())))
             if not r.startswith('ok'):
                 raise Unmodelled('universe join failed: ' + r)
         if prefix:
-            sr.paths[prefix + 'R'] = sr.paths[root]
+            sr.do('join %sR %s -' % (prefix, root))
 
     def build(self, shape, prefix='', lens=None, tag='c'):
         """create the shape (parents first) through create_dir / create_file+write; returns Tree"""
